@@ -9,9 +9,10 @@ FUNCS = ['soupsieve.SoupSieve.select/select_one/iselect/match/filter/closest', '
 CONDS = [
     Cond('any_selector_any_target_ok',
          'all six entry points return values of the documented types for (selector, document, call target)',
-         'selector pool: BASIC + at least one spelling of every pseudo-class in the live PSEUDO_* tables; 8 documents '
-         '(forms document under html.parser / lxml / html5lib, plain, several top-level nodes, XML with namespaces, '
-         'XHTML via lxml-xml, empty document); target: the document and every element',
+         'selector pool: BASIC + at least one spelling of every pseudo-class in the live PSEUDO_* tables (symbolic index); for each, 16 '
+         'documents (forms document under html.parser / lxml / html5lib, plain, several top-level nodes, XML with namespaces, '
+         'XHTML via lxml-xml, empty, foreign forms, list-valued <meta>, script/style/template text, every multi-valued attribute '
+         'on every control under three parsers); target: the document and every element',
          timeout={'quick': 100, 'thorough': 900}, parts={'quick': 8, 'thorough': 8}),
     Cond('detached_ok', 'same on detached fragments (no document object) and their descendants',
          'four fragments: form, list, XML element, single input', timeout={'quick': 80, 'thorough': 600},
